@@ -25,7 +25,7 @@ func init() {
 		Assumptions: []string{"memcall.Interface methods perform the named syscalls", "memguard/core's init calls DisableCoreDumps (as its documentation and the source comment in protectedmemory state)", "sync.Cond.Wait keeps the lock held on return"},
 		Tech:        "static analysis: lock-state dataflow, must-pass-through and ordering (dominance) rules on SSA, applied to both SecretFactory back ends",
 		NeedU1:      true,
-		Rules:       []func(*Ctx){ruleC11ProtectedStructNotRendered, countersCannotWrapRule("C11", 2, pkgProt, pkgMemg), ruleC11GuardedFields, ruleC11Bracket, ruleC11ProtectionTransitions, ruleC11NoStaleCounterDecision, ruleC11ReaderCopiesOnlyToCaller, ruleC11CloseWaitsAndOrders, ruleC11CoreDumps, ruleSecretFlagsMonotonic, ruleC11PageStateUnderLock, ruleC11SyscallWrapperDirect, ruleC11AccessorsOnFinalizerOwner, condOnSameLockRule("C11", [4]string{pkgProt, "secretInternal", "rw", "c"}, [4]string{pkgMemg, "secret", "rw", "c"}), lostUpdateRule("C11", "github.com/godaddy/asherah/go/securememory"), lockBalancedRule("C11", 10, lockDomSpec{pkgProt, "secretInternal", "rw"}, lockDomSpec{pkgMemg, "secret", "rw"}), nilContradictionRule("C12", false, "github.com/godaddy/asherah/go/securememory"), ruleC11ProtectionAliasesAreNamesakes, ruleC11CleanUnlocksBeforeFreeing},
+		Rules:       []func(*Ctx){ruleC11ProtectedStructNotRendered, countersCannotWrapRule("C11", 2, pkgProt, pkgMemg), ruleC11GuardedFields, ruleC11Bracket, ruleC11ProtectionTransitions, ruleC11NoStaleCounterDecision, ruleC11ReaderCopiesOnlyToCaller, ruleC11CloseWaitsAndOrders, ruleC11CoreDumps, ruleSecretFlagsMonotonic, ruleC11PageStateUnderLock, ruleC11SyscallWrapperDirect, ruleC11AccessorsOnFinalizerOwner, condOnSameLockRule("C11", [4]string{pkgProt, "secretInternal", "rw", "c"}, [4]string{pkgMemg, "secret", "rw", "c"}), lostUpdateRule("C11", "github.com/godaddy/asherah/go/securememory"), lockBalancedRule("C11", 10, lockDomSpec{pkgProt, "secretInternal", "rw"}, lockDomSpec{pkgMemg, "secret", "rw"}), nilContradictionRule("C12", false, "github.com/godaddy/asherah/go/securememory"), ruleC11ProtectionAliasesAreNamesakes, ruleC11CleanUnlocksBeforeFreeing, ruleC12WipeBeforeRelease},
 	})
 }
 
